@@ -154,10 +154,15 @@ fn write_json(v: &J, out: &mut String) {
     }
 }
 
-/// escape a regex literal fragment so that it matches itself
+/// escape a regex literal fragment so that it matches itself; the code point 0 stands for the
+/// wildcard `.` (any one character) and is written unescaped
 pub fn regex_escape(lit: &str) -> String {
     let mut o = String::new();
     for c in lit.chars() {
+        if c == '\u{0}' {
+            o.push('.');
+            continue;
+        }
         if "\\.+*?()|[]{}^$#&-~/".contains(c) {
             o.push('\\');
         }
@@ -321,6 +326,8 @@ pub fn from_reported_json(j: &J) -> Option<J> {
                     esc = false;
                 } else if c == '\\' {
                     esc = true;
+                } else if c == '.' {
+                    lit.push('\u{0}');      // the wildcard
                 } else {
                     lit.push(c);
                 }
